@@ -9,7 +9,10 @@ from .. import mailbox_corr as mc
 ID = "C14"
 MODEL = "CLIENT"
 PROP_MODULES = ["WV.Props.C14"]
-TRUSTED = ["SPAKE2 / SecretBox / HKDF (the model sees only 'decrypts' / 'does not decrypt', classified by the harness with the real keys)",
+NATIVE_DECIDE_MODULES = ["WV.Proofs.ClientCert"]   # the one finite certificate, disclosed (DESIGN §4)
+TRUSTED = ["native_decide on the finite certificate of the closed system (WV.Proofs.ClientCert.cert: ~2.8e4 states x 34 events): adds Lean.ofReduceBool/Lean.trustCompiler, i.e. the Lean compiler, to these theorems",
+           "the environment model WV.ClientEnv.enabled (what a conformant server/peer/application may do); validated by trace inclusion of real-server runs",
+           "SPAKE2 / SecretBox / HKDF (the model sees only 'decrypts' / 'does not decrypt', classified by the harness with the real keys)",
            "ClientService (replaced by a fake that, like the real one, completes stopService() at once when there is no connection and after the connection is closed otherwise)",
            "autobahn WebSocket framing; the mailbox server is the installed wormhole_mailbox_server (real protocol objects, in-memory DB)",
            "Dilator stub: dilate() is not called in this world (C17 covers dilation shutdown)"]
